@@ -18,6 +18,7 @@ Neither pass changes what the program computes; both only make facts that hold o
 visible to analyses that look at the control-flow graph.
 """
 import copy
+import os
 
 OPT = "std::option::Option"
 RES = "std::result::Result"
@@ -79,6 +80,7 @@ class Threader:
                 self.enum_variants[a["path"]] = [v["name"] for v in a["variants"]]
         self.n_try = 0
         self.n_thread = 0
+        self.n_split = 0
 
     def variant_index(self, adt, name):
         if (adt, name) in VARIANT_INDEX:
@@ -168,6 +170,8 @@ class Threader:
                     self.n_try += 1
 
     # ------------------------------------------------------------------ pass 2: jump threading
+    _unnamed = None
+
     def known_after(self, stmts, env=None):
         """symbolic facts after executing a straight-line statement list:
         {local: ('variant', adt, idx) | ('bool', v) | ('int', n)}"""
@@ -191,11 +195,17 @@ class Threader:
             elif rv["k"] == "use":
                 o = rv["ops"][0]
                 if o.get("k") == "const":
-                    # boolean constants are deliberately NOT threaded: `let c = a && b; if c {..}` is handled by
-                    # Body.implied_edges / reach_avoiding_edges, which need the constant definitions in place
-                    pass
+                    # boolean constants of NAMED variables are deliberately not threaded: `let c = a && b; if c {..}`
+                    # is handled by Body.implied_edges / reach_avoiding_edges, which need the constant definitions
+                    # in place.  A compiler temporary (the result slot of a lowered `is_some_and`, of a `match` used as
+                    # a condition) is threaded like a variant.
+                    cb = (o.get("c") or {})
+                    if self._unnamed is not None and l in self._unnamed and cb.get("ty") == "bool" and "int" in cb:
+                        val = ("bool", bool(int(cb["int"])))
                 elif o.get("place") and not o["place"]["p"] and o["place"]["l"] in env:
                     val = env[o["place"]["l"]]
+                    if val[0] == "bool" and (self._unnamed is None or l not in self._unnamed):
+                        val = None
             elif rv["k"] == "discr":
                 pl = rv["place"]
                 if not pl["p"] and pl["l"] in env and env[pl["l"]][0] == "variant":
@@ -221,6 +231,7 @@ class Threader:
         switch block jump straight to the arm P's value selects"""
         hm = it["mir"]
         changed_any = False
+        self._unnamed = None if os.environ.get("VERIF_NO_BOOL_THREADING") else {l["i"] for l in hm["locals"] if not l.get("name")}
         for _round in range(200):
             blocks = hm["blocks"]
             npreds = {}
@@ -277,7 +288,279 @@ class Threader:
             changed_any = True
         if changed_any:
             self._mark_dead(hm)
+            self._drop_dead_consts(hm)
         return changed_any
+
+    @staticmethod
+    def _locals_in(j, out):
+        """every local mentioned anywhere inside a JSON fragment (places and index projections)"""
+        if isinstance(j, dict):
+            if "l" in j and "p" in j and isinstance(j["l"], int):
+                out.add(j["l"])
+            if "idx" in j and isinstance(j["idx"], int):
+                out.add(j["idx"])
+            for v in j.values():
+                Threader._locals_in(v, out)
+        elif isinstance(j, list):
+            for v in j:
+                Threader._locals_in(v, out)
+
+    def _drop_dead_consts(self, hm):
+        """after threading, `_t = const true/false` of a compiler temporary whose only reader (the switch the
+        constant was threaded through) is no longer reachable from it is a dead store: remove it, so that `_t` is
+        again a single-definition temporary for the descriptions"""
+        if not self._unnamed:
+            return
+        blocks = hm["blocks"]
+        reads = {}
+        for b in blocks:
+            if b.get("cleanup") or b.get("dead"):
+                continue
+            r = set()
+            for st in b["stmts"]:
+                if st["k"] == "assign":
+                    self._locals_in(st["rv"], r)
+                    if st["lhs"]["p"]:
+                        self._locals_in(st["lhs"], r)
+                else:
+                    pass
+            self._locals_in(b["term"], r)
+            reads[b["i"]] = r
+        for b in blocks:
+            if b.get("cleanup") or b.get("dead"):
+                continue
+            for k, st in enumerate(list(b["stmts"])):
+                if st["k"] != "assign" or st["lhs"]["p"] or st["lhs"]["l"] not in self._unnamed:
+                    continue
+                rv = st["rv"]
+                if rv["k"] != "use" or rv["ops"][0].get("k") != "const" or (rv["ops"][0].get("c") or {}).get("ty") != "bool":
+                    continue
+                t = st["lhs"]["l"]
+                # read later in the same block?
+                later = set()
+                for st2 in b["stmts"][b["stmts"].index(st) + 1:]:
+                    if st2["k"] == "assign":
+                        self._locals_in(st2["rv"], later)
+                        if st2["lhs"]["p"]:
+                            self._locals_in(st2["lhs"], later)
+                self._locals_in(b["term"], later)
+                if t in later:
+                    continue
+                seen = set()
+                work = list(self._succs(b["term"]))
+                live = False
+                while work and not live:
+                    x = work.pop()
+                    if x in seen:
+                        continue
+                    seen.add(x)
+                    if blocks[x].get("cleanup"):
+                        continue
+                    if t in reads.get(x, ()):
+                        live = True
+                        break
+                    work.extend(self._succs(blocks[x]["term"]))
+                if not live:
+                    b["stmts"].remove(st)
+
+    # ------------------------------------------------------------------ pass 3: references selected by a branch
+    SCALARS = ("bool", "()", "usize", "isize", "f64", "f32", "u8", "u16", "u32", "u64", "i8", "i16", "i32", "i64", "char", "!")
+
+    @staticmethod
+    def _rename(j, m):
+        """rename locals inside a JSON fragment (places and index projections) in place"""
+        if isinstance(j, dict):
+            if "l" in j and "p" in j and isinstance(j["l"], int) and j["l"] in m:
+                j["l"] = m[j["l"]]
+            if "idx" in j and isinstance(j["idx"], int) and j["idx"] in m:
+                j["idx"] = m[j["idx"]]
+            for v in j.values():
+                Threader._rename(v, m)
+        elif isinstance(j, list):
+            for v in j:
+                Threader._rename(v, m)
+
+    def _block_rw(self, b):
+        """(locals read, locals written as a whole or in part) by a block"""
+        r, w = set(), set()
+        for st in b["stmts"]:
+            if st["k"] != "assign":
+                continue
+            self._locals_in(st["rv"], r)
+            w.add(st["lhs"]["l"])
+            if st["lhs"]["p"]:
+                self._locals_in(st["lhs"], r)
+        t = b["term"]
+        if t["k"] == "call":
+            self._locals_in(t.get("func"), r)
+            self._locals_in(t.get("args"), r)
+            w.add(t["dest"]["l"])
+            if t["dest"]["p"]:
+                self._locals_in(t["dest"], r)
+        else:
+            self._locals_in(t, r)
+        return r, w
+
+    def split_selected_refs(self, it):
+        """`let r = match c { true => &mut a, false => &mut b }; use(r)`: the statements that use the selected
+        reference are duplicated into the two arms (each with its own copy of `r` and of the temporaries derived
+        from it), which is what the code looked like before the arms were merged.  The flow-insensitive points-to
+        sets then keep `a` and `b` apart, and the uses stay control-dependent on `c`."""
+        hm = it["mir"]
+        blocks = hm["blocks"]
+        did = False
+        for _round in range(8):
+            live = [b for b in blocks if not b.get("cleanup") and not b.get("dead")]
+            preds = {}
+            for b in live:
+                for y in set(self._succs(b["term"])):
+                    preds.setdefault(y, []).append(b["i"])
+            # whole definitions of reference-carrying locals, by block
+            defs = {}
+            other_def = set()
+            for b in live:
+                for st in b["stmts"]:
+                    if st["k"] == "assign":
+                        l = st["lhs"]["l"]
+                        if st["lhs"]["p"]:
+                            other_def.add(l)
+                        else:
+                            defs.setdefault(l, []).append(b["i"])
+                if b["term"]["k"] == "call":
+                    other_def.add(b["term"]["dest"]["l"])
+            cand = None
+            for l, dbs in sorted(defs.items()):
+                ty = str(hm["locals"][l]["ty"])
+                if l in other_def or len(dbs) < 2 or len(set(dbs)) != len(dbs) or "&mut" not in ty or not (ty.startswith("&") or ty.startswith("(")):
+                    continue
+                if l <= hm["arg_count"]:
+                    continue
+                tg = {blocks[d]["term"].get("target") if blocks[d]["term"]["k"] == "goto" else None for d in dbs}
+                if len(tg) != 1 or None in tg:
+                    continue
+                J = next(iter(tg))
+                if J in dbs or sorted(preds.get(J, [])) != sorted(dbs):
+                    continue
+                # the maximal straight-line chain from J
+                chain = []
+                cur = J
+                while cur is not None and cur not in chain and cur not in dbs and len(chain) < 32:
+                    cb = blocks[cur]
+                    if cb.get("cleanup") or (chain and len(preds.get(cur, [])) != 1):
+                        break
+                    chain.append(cur)
+                    t = cb["term"]
+                    if t["k"] == "goto" or (t["k"] in ("call", "drop") and t.get("target") is not None):
+                        cur = t["target"]
+                    else:
+                        cur = None
+                if not chain:
+                    continue
+                rw = {c: self._block_rw(blocks[c]) for c in chain}
+                last = 0
+                D = {l}
+                for _ in range(40):
+                    D = {l}
+                    for c in chain[: last + 1]:
+                        cb = blocks[c]
+                        for st in cb["stmts"]:
+                            if st["k"] != "assign":
+                                continue
+                            rr = set()
+                            self._locals_in(st["rv"], rr)
+                            if st["lhs"]["p"]:
+                                self._locals_in(st["lhs"]["p"], rr)
+                            if rr & D:
+                                D.add(st["lhs"]["l"])
+                        t = cb["term"]
+                        if t["k"] == "call":
+                            rr = set()
+                            self._locals_in(t.get("args"), rr)
+                            if rr & D and str(t["dest"]["ty"]) not in self.SCALARS:
+                                D.add(t["dest"]["l"])
+                    nl = max([k for k, c in enumerate(chain) if rw[c][0] & D] or [0])
+                    if nl <= last:
+                        break
+                    last = nl
+                region = chain[: last + 1]
+                rset = set(region)
+                if blocks[region[-1]]["term"]["k"] not in ("goto", "call", "drop"):
+                    continue
+                # every read / write of the derived locals lies inside the region (the selected local itself is
+                # written in the arms)
+                ok = True
+                reads_in, writes_in = set(), set()
+                for c in region:
+                    reads_in |= rw[c][0]
+                    writes_in |= rw[c][1]
+                for b in live:
+                    if b["i"] in rset:
+                        continue
+                    r_, w_ = self._block_rw(b)
+                    if r_ & D:
+                        ok = False
+                    if (w_ & D) - ({l} if b["i"] in dbs else set()):
+                        ok = False
+                for b in blocks:
+                    if b.get("cleanup") and not b.get("dead"):
+                        r_, w_ = self._block_rw(b)
+                        if (r_ | w_) & (D - {l}):
+                            pass  # drops of the temporaries on unwinding: not analysed
+                if not ok or l in writes_in:
+                    continue
+                # locals private to the region: defined and used only there
+                outside_r, outside_w = set(), set()
+                for b in live:
+                    if b["i"] in rset:
+                        continue
+                    r_, w_ = self._block_rw(b)
+                    outside_r |= r_
+                    outside_w |= w_
+                private = {x for x in writes_in if x not in outside_r and x not in outside_w and x > hm["arg_count"] and x != 0}
+                if not (D - {l}) <= private:
+                    continue
+                cand = (l, dbs, region)
+                break
+            if cand is None:
+                break
+            (l, dbs, region) = cand
+            exit_t = blocks[region[-1]]["term"]
+            for d in dbs:
+                m = {}
+                for x in sorted(private | {l}):
+                    src = hm["locals"][x]
+                    nl_ = len(hm["locals"])
+                    nloc = dict(src)
+                    nloc["i"] = nl_
+                    nloc["split_of"] = x
+                    if src.get("name"):
+                        nloc["param_name"] = src.get("name")
+                    nloc["name"] = None
+                    hm["locals"].append(nloc)
+                    m[x] = nl_
+                first = None
+                prev = None
+                for c in region:
+                    cb = blocks[c]
+                    st2 = copy.deepcopy(cb["stmts"])
+                    t2 = copy.deepcopy(cb["term"])
+                    self._rename(st2, m)
+                    self._rename(t2, m)
+                    nb = self.new_block(hm, st2, t2)
+                    hm["blocks"][nb]["split_from"] = c
+                    if first is None:
+                        first = nb
+                    if prev is not None:
+                        hm["blocks"][prev]["term"]["target"] = nb
+                    prev = nb
+                pb = blocks[d]
+                self._rename(pb["stmts"], {l: m[l]})
+                pb["term"] = dict(pb["term"])
+                pb["term"]["target"] = first
+            self.n_split += 1
+            did = True
+            self._mark_dead(hm)
+        return did
 
     def _mark_dead(self, hm):
         blocks = hm["blocks"]
@@ -336,6 +619,9 @@ class Threader:
                 continue
             self.desugar_try(it)
             self.thread_body(it)
+            if not os.environ.get("VERIF_NO_SPLIT"):
+                self.split_selected_refs(it)
         self.facts["try_desugared"] = self.n_try
         self.facts["jumps_threaded"] = self.n_thread
+        self.facts["selected_refs_split"] = self.n_split
         return self.facts
